@@ -36,9 +36,32 @@ def _selname(k):
         return k.name
     if isinstance(k, slice) and k == slice(None):
         return ":"
+    if isinstance(k, slice) and (isinstance(k.start, SizeOf) or isinstance(k.stop, SizeOf)) and k.step is None:
+        # a leading / trailing block cut by the SIZE of another index set: positions, not the dofs of that set
+        return "positions[" + ("" if k.start is None else repr(k.start)) + ":" + ("" if k.stop is None else repr(k.stop)) + "]"
+    if isinstance(k, SizeOf):
+        raise AnalysisError(f"unsupported selector {k!r}")
     if k == 0:
         return "0"
     raise AnalysisError(f"unsupported selector {k!r}")
+
+
+class SizeOf:
+    """the number of entries of a restricted vector: a symbolic size"""
+
+    _xeval_open = True
+
+    def __init__(self, rows):
+        self.rows = rows
+
+    def __repr__(self):
+        return f"len({self.rows})"
+
+    def __eq__(self, o):
+        return isinstance(o, SizeOf) and o.rows == self.rows
+
+    def __hash__(self):
+        return hash(("SizeOf", self.rows))
 
 
 class SMat:
@@ -136,6 +159,10 @@ class SVec:
         return self
 
     @property
+    def size(self):
+        return SizeOf(self.rows)
+
+    @property
     def shape(self):
         return (Opaque("n"), 1)
 
@@ -168,9 +195,9 @@ class Solved(SVec):
         self.A, self.b = A, b
 
 
-def elimination_rule(ctx):
+def elimination_rule(ctx, rid="R4.1"):
     repo = ctx.repo
-    r = ctx.rule("R4.1", "elimination solver: x[U] = solve(A[U,U], b[U] - A[U,K] x[K]), x[K] kept, with (K,U) in the order Bc_dofs_known_unknown returns them", min_instances=1)
+    r = ctx.rule(rid, "elimination solver: x[U] = solve(A[U,U], b[U] - A[U,K] x[K]), x[K] kept, with (K,U) in the order Bc_dofs_known_unknown returns them", min_instances=1)
     mod = repo.module(SOLV)
     f = mod.functions.get("__Solver_1")
     if f is None:
@@ -227,7 +254,7 @@ def elimination_rule(ctx):
     if ops is not None:
         badops = [nm for nm, v in zip(("x0", "lb", "ub"), ops) if not (isinstance(v, SVec) and v.rows == "U")]
         if badops:
-            r.fail(f.qualname, "operand-not-reduced:" + ",".join(badops), f.file, f.lineno, "__Solver_1", f"the reduced system A[U,U] is solved with {', '.join(badops)} still given on every dof: the bounded least-squares backend receives bounds whose size is not that of the reduced system as soon as one dof is constrained")
+            r.fail(f.qualname, "operand-not-reduced:" + ",".join(badops), f.file, f.lineno, "__Solver_1", "the reduced system A[U,U] is solved with " + ", ".join(nm + " taken on `" + str(getattr(v, "rows", None)) + "`" for nm, v in zip(("x0", "lb", "ub"), ops) if nm in badops) + " instead of the unknown dofs U: the bounded backend receives the bounds of other dofs (or of the wrong size) as soon as a dof is constrained - the irreversibility bound d >= d_old is applied to the wrong nodes")
         else:
             r.ok("x0, lb, ub are restricted to the unknown dofs before the reduced solve")
     xs = res[0] if isinstance(res, tuple) else res
